@@ -218,6 +218,29 @@ EXTRA4 = {
 }
 for k, v in EXTRA4.items():
     claimed[k]["text"] += v
+AFTER = " After-edit differential histories: the question, an in-place edit of the value (edits that keep count, encoded size or identifiers included), the same question again - the second answer must equal the answer on a fresh copy of the edited value."
+EXTRA5 = {
+ "C01": " Every text attribute with one value of 70 000 bytes, of 12 000 escaped characters and of 1.1 MB.",
+ "C02": " Every text attribute with one value of 70 000 bytes, of 12 000 escaped characters and of 1.1 MB.",
+ "C03": " One document value written in two formats in a row (containment shapes with refused targets before accepted ones), the second output judged against the document as built.",
+ "C05": " Component references composed from the structural tokens of the sources, on components with nested components.",
+ "C06": " 90 KB runs of 2-/3-/4-byte characters shifted by 0..3 bytes (every fixed byte offset falls inside a character in some case) x formats x indents.",
+ "C07": " The same document value written in the other format afterwards (containment shapes); all sequences of 2 WriteFile calls on one path, the file against the stream output; output normalisation rejects data after the document.",
+ "C08": " Root elements named more than once.",
+ "C09": AFTER + " (Union, Add.)",
+ "C10": AFTER + " (Intersect.)",
+ "C11": " Operands with empty-valued entries in every map and list, and with non-tree containment.",
+ "C12": " The copy of every deviated value (duplicated, reordered, emptied, range-corner content) equals it.",
+ "C13": AFTER + " (Checksum, Node.Equal, NodeList.Equal.)",
+ "C14": AFTER + " (Diff.) Lists and maps of 33 / 65 / 130 entries with one entry changed at the first, a middle and the last position.",
+ "C15": " Identifier / type-number collision family (n, n1, n11 x 1, 2, 5, 11, 12, 15).",
+ "C16": " Lists of 301, 1027 and 2051 nodes.",
+ "C17": " Concurrent writes with render options of their own per thread, judged on a digest of the bytes written.",
+ "C19": " Two concurrent store / retrieve calls under the controlled scheduler: file-system steps and the synchronisation operations of pkg/storage (deterministic sync.Pool shim) are scheduling points, every schedule with <=2 (thorough 3) preemptions.",
+ "C20": " One injected error followed by a crash: every step of the store x six errors; where the store still touches the file system after the failed step, every crash point of that continuation.",
+}
+for k, v in EXTRA5.items():
+    claimed[k]["text"] += v
 
 checks = []
 for pid in all_ids:
